@@ -243,6 +243,55 @@ def run_idd(case, stt):
     stt.label("dm_unit_" + case["dm_unit"])
 
 
+@st.composite
+def idd_hist_case(draw):
+    base = draw(idd_case())
+    steps = [draw(st.sampled_from(["same", "same", "dm", "ref", "start", "data_len", "align", "dm_unit"])) for _ in range(draw(st.integers(1, 4)))]
+    return {"base": base, "steps": steps, "pick": draw(st.integers(0, 10**6))}
+
+
+def run_idd_hist(case, stt):
+    """the same incoherent dedispersion again and again in one process, one ingredient changed per step (caches of delays etc.)"""
+    import copy
+
+    cur = copy.deepcopy(case["base"])
+    run_idd(cur, stt)
+    k = case["pick"]
+    for i, step in enumerate(case["steps"]):
+        cur = copy.deepcopy(cur)
+        sg = cur["sig"]
+        if step == "dm":
+            cur["dm"] = cur["dm"] * [2.0, -1.0, 0.5][(k + i) % 3]
+        elif step == "ref":
+            cur["ref"] = REFSEL[(REFSEL.index(cur["ref"]) + 1 + (k + i) % 5) % len(REFSEL)]
+        elif step == "start":
+            sg["t0"] = None if sg["t0"] else {"mjd": 58000 + (k % 100), "frac": 0.125}
+        elif step == "data_len":
+            sg["n"] = max(1, sg["n"] + [-1, 1, 7][(k + i) % 3])
+        elif step == "align":
+            sg["align"] = [a for a in ("bottom", "center", "top") if a != sg["align"]][(k + i) % 2]
+        elif step == "dm_unit":
+            cur["dm_unit"] = ["none", "pc / cm3", "kpc / cm3", "pc / m3"][(k + i) % 4]
+        run_idd(cur, stt)
+        stt.label("hist_" + step)
+    stt.nt("same" in case["steps"] or len(case["steps"]) >= 2)
+
+
+@st.composite
+def idd_long_case(draw):
+    base = draw(idd_case())
+    n = draw(st.sampled_from([2000, 4096, 10007, 70001]))
+    base["sig"]["n"] = n
+    base["sig"]["sshape"] = base["sig"]["sshape"][:1] + base["sig"]["sshape"][1:2]
+    base["sig"]["sshape"][0] = min(base["sig"]["sshape"][0], 6)
+    if base["sig"]["dtype"] in ("f4", "c8"):
+        base["sig"]["dtype"] = "f8" if base["sig"]["cls"] not in G.BASEBAND else "c16"  # index-coded data must stay exact
+    if base["sig"]["cls"] in ("IntensitySignal", "FullStokesSignal") and base["sig"]["dtype"] not in ("f8",):
+        base["sig"]["dtype"] = "f8"
+    base["dm"] = base["dm"] * n / 100.0
+    return base
+
+
 def run_err(spec, stt):
     import pulsarbat as pb
 
@@ -260,6 +309,12 @@ SUBS = [
         "every radio class (incl. complex baseband and 4-Stokes), nchan 1..17, alignments, positive band, reference inside/outside, N 1..200, "
         "with/without start time, trailing dims, index-coded data traced sample by sample; non-trivial = >= 2 channels with distinct non-zero "
         "rounded delays of which one is negative", quick=2500, thorough=50000, pieces_quick=4),
+    Sub("call_history", idd_hist_case(), run_idd_hist,
+        "the same incoherent dedispersion repeated 2..5 times in one process (identical, or with DM / reference / start time / length / alignment "
+        "/ DM unit changed one at a time), every result traced; non-trivial = an identical repeat or >= 2 steps", quick=400, thorough=8000,
+        pieces_quick=4),
+    Sub("long_signals", idd_long_case(), run_idd, "N in {2000, 4096, 10007, 70001}, up to 6 channels, delays scaled with N; non-trivial as above",
+        quick=40, thorough=600, pieces_quick=4),
     Sub("refusal", G.signal_spec(classes=["Signal"], nmin=2, nmax=8, max_trailing=1), run_err, "plain Signal must raise TypeError", quick=30,
         thorough=300, pieces_quick=1),
 ]
